@@ -63,6 +63,33 @@ def run_config(chk, config):
         badx = [x for x in xs if not (x["aligned"] and x["j"] == (0, B - 1) and x["digest_is_latest"] and x["kind"] in ("first", "chain"))]
         chk.oblig(not badx and bool(xs), "xor | %s" % name, "%s: block XOR is not octet-by-octet with the block's own key" % name, {},
                   {"obligation": "%s: block i XOR MD5(key i), 16 octets" % name})
+    # every block is keyed and XORed (coverage), and reveal accepts every original length that fits
+    from hiding import coverage_facts
+    for name, eng_, X_ in (("hide", engh, H), ("reveal", engr, R)):
+        f_, ch_ = key_facts(eng_, X_)
+        cp = coverage_facts(eng_, X_, ch_, xor_facts(eng_, X_, ch_))
+        chk.oblig(not cp, "coverage | %s" % name, "%s does not process every block/octet: %s" % (name, cp[:2]),
+                  {"rule": "each later block is XORed with MD5(secret, previous ciphertext block): all blocks 1..n-1", "problems": cp},
+                  {"obligation": "%s: every block is processed" % name})
+    hidden_idx = [i for i, (n, k, t) in enumerate(a.variants) if n == "Hidden"][0]
+    over = []
+    n_len_err = 0
+    for s, v in R.rets:
+        vi, p = result_parts(v)
+        if vi == 1 and tables.variant_name(engr, p) == "InvalidOriginalAVPLength":
+            n_len_err += 1
+            reads = [e for e in s.events() if e[0] == "read"]
+            fs = engr.variant_fields(s, selfv, hidden_idx)
+            val = engr.variant_fields(s, fs[0], 0)[1]
+            ln = vec_len_of(engr, s, val)
+            if reads and ln is not None:
+                tot = reads[0][3].lin
+                if layout.conj_feasible(engr, s, [c_le(Lin.const(6), tot), c_le(tot, Lin.const(1023)), c_le(tot - 6, ln - 2)]):
+                    over.append(s.notes()[-3:])
+    chk.oblig(not over and n_len_err >= 1, "ref-reveal | original length",
+              "reveal rejects an original length that fits the decrypted value (the reference construction accepts it): %s" % over[:1],
+              {"rule": "reveal(h) = ref_reveal(h): reject only when 6 <= total <= 1023 and total-6 <= |value|-2 fails"},
+              {"obligation": "reveal rejects an original length only when it does not fit"})
     # plaintext: original length = total length of the original AVP; minimal alignment; multiple of 16
     atc = attr_type_consts(fx)
     from hiding import plaintext_facts
